@@ -291,7 +291,14 @@ def check(prop, tier, seed, jobs):
 
     # ------------------------------------------------------------------ canaries
     can = [r for r in results if r.get('task') == 'canary' and not r.get('crash')]
-    survived = [r for r in can if r['status'] == 'SURVIVED']
+    # a canary is a vacuity alarm only where its harness verified on this tree: a harness left undecided (restructured code,
+    # loop shape without a spec) cannot kill anything and says so itself
+    und_h = set(undecided_harness) | {clauses[o]['harness'] for o, _ in undecided if o in clauses} \
+        | {h for m in missing for h in run.HARNESSES if m.startswith(h + '/')}
+    survived = [r for r in can if r['status'] == 'SURVIVED' and r['harness'] not in und_h]
+    for r in can:
+        if r['status'] == 'SURVIVED' and r['harness'] in und_h:
+            r['status'] = 'not decided (harness undecided on this tree)'
 
     # ------------------------------------------------------------------ bounded / random parts
     bres = [r for r in results if r.get('task') == 'bounded' and not r.get('crash')]
@@ -445,8 +452,10 @@ def check(prop, tier, seed, jobs):
     }
     if crashes:
         evidence['coverage']['checker_crashes'] = [c['crash'][:600] for c in crashes]
-    os.makedirs(os.path.join(VERIF, 'evidence'), exist_ok=True)
-    with open(os.path.join(VERIF, 'evidence', prop + '.json'), 'w') as f:
+    # evidence describes /repo itself; a run against a scratch copy (QSTRADER_ROOT) writes its record next to the replays instead
+    edir = 'evidence' if os.path.realpath(os.environ.get('QSTRADER_ROOT', '/repo')) == '/repo' else os.path.join('replays', '_scratch_evidence')
+    os.makedirs(os.path.join(VERIF, edir), exist_ok=True)
+    with open(os.path.join(VERIF, edir, prop + '.json'), 'w') as f:
         json.dump(evidence, f, indent=1, default=str)
     # summary on stderr-ish (stdout lines that are not VIOLATION are informational)
     print('%s tier=%s: obligations %d discharged %d | clauses %d | canaries %d killed %d survived %d | bounded modules %d | undecided %d%s | %.1fs'
